@@ -125,6 +125,8 @@ STRUCTS = {
     },
 }
 
+LISTENERS = {"tucan.parser.parser": "TucanListenerImpl"}
+
 CTX_ACCESSORS = {"node_index", "node_property_key", "node_property_value"}
 
 _TYPE_TABLE = {
@@ -199,12 +201,14 @@ HINTS = {
                                         "graphs": ["graph"], "returns": "Str"},
     "molfile_writer._add_header": {"returns": None},
     "molfile_writer._add_v30_line": {},
-    "molfile_writer._add_atom_block": {"graphs": ["graph"]},
+    "molfile_writer._add_atom_block": {"graphs": ["graph"], "ifexp_toVal": True, "params": {"calc_coordinates": "Bool"},
+                                       "predeclare": {"coords": "Dict Int (List Val)"}},
     "molfile_writer._add_bond_block": {"graphs": ["graph"]},
     "molfile_v3000_reader._concat_lines_with_dash": {"types": {"final_lines": "List Str"}},
     "molfile_v3000_reader._parse_atom_block": {"types": {"atom_attrs": "Dict Int Attrs", "star_atoms": "List Int"}},
-    "molfile_v3000_reader._parse_bond_block": {"types": {"bonds": "Dict (Int × Int) Attrs"}, "dict_literal_type": "Dict (Int × Int) Attrs"},
-    "molfile_v3000_reader._parse_atom_attributes": {"dict_literal_type": "Attrs"},
+    "molfile_v3000_reader._parse_bond_block": {"types": {"bonds": "Dict (Int × Int) Attrs"}, "dict_literal_type": "Dict (Int × Int) Attrs",
+                                               "predeclare": {"bond_tuples": "List (Int × Int)"}},
+    "molfile_v3000_reader._parse_atom_attributes": {"dict_literal_type": "Attrs", "types": {"optional_attrs": "Dict String (List Int)"}},
     "molfile_v2000_reader._parse_attribute_block": {"types": {"additional_attrs": "Dict Int Attrs"}},
     "molfile_v2000_reader._merge_tuples_into_additional_attributes": {"params": {"key": "String", "additional_attrs": "Dict Int Attrs"}, "attr_key_vars": ["key"]},
     "molfile_v2000_reader._clear_atom_attribute": {"params": {"key": "String"}},
@@ -213,12 +217,14 @@ HINTS = {
     "parser.TucanListenerImpl._validate_atom_index": {"params": {"index": "Int"}},
     "parser.TucanListenerImpl._add_atoms": {"params": {"element": "Str", "count": "Int"}},
     "parser.TucanListenerImpl._add_bond": {"params": {"index1": "Int", "index2": "Int"}},
-    "parser.TucanListenerImpl._add_node_attribute": {"params": {"node_index": "Int", "key": "Str", "value": "Int"}},
-    "parser.TucanListenerImpl._parse_sum_formula": {"params": {"formula_ctx": "PTree"}},
-    "parser.TucanListenerImpl.enterWith_carbon": {"params": {"ctx": "PTree"}},
-    "parser.TucanListenerImpl.enterWithout_carbon": {"params": {"ctx": "PTree"}},
-    "parser.TucanListenerImpl.enterTuple": {"params": {"ctx": "PTree"}},
-    "parser.TucanListenerImpl.enterNode_property": {"params": {"ctx": "PTree"}},
-    "parser.TucanListenerImpl.to_graph": {"types": {"atoms_dict": "Dict Int Attrs", "bonds_dict": "Dict (Int × Int) Attrs"}},
+    "parser.TucanListenerImpl._parse_sum_formula": {"params": {"formula_ctx": "PCtx"}},
+    "parser.TucanListenerImpl.enterWith_carbon": {"params": {"ctx": "PCtx"}},
+    "parser.TucanListenerImpl.enterWithout_carbon": {"params": {"ctx": "PCtx"}},
+    "parser.TucanListenerImpl.enterTuple": {"params": {"ctx": "PCtx"}},
+    "parser.TucanListenerImpl.enterNode_property": {"params": {"ctx": "PCtx"}},
+    "parser.TucanListenerImpl.to_graph": {"types": {"atoms_dict": "Dict Int Attrs", "bonds_dict": "Dict (Int × Int) Attrs"},
+                                          "dict_literal_type": "Attrs"},
+    "parser.TucanListenerImpl._add_node_attribute": {"params": {"node_index": "Int", "key": "Str", "value": "Int"}, "dict_literal_type": "Attrs"},
     "parser._to_int": {"params": {"number": "Str"}},
+    "molfile_reader.graph_from_molfile_text": {"types": {"atom_attrs": "Dict Int Attrs", "bond_attrs": "Dict (Int × Int) Attrs"}},
 }
